@@ -914,6 +914,10 @@ fn command_lines(run: &mut Run) {
         (&["--tui-custom-columns", "holsr"], |a| format!("{:?}", a.tui_custom_columns), d(&Some("holsr".to_string()))),
         (&["--tui-theme-colors", "bg-color=red,text-color=0a1b2c"], |a| format!("{:?}", a.tui_theme_colors.iter().map(|(i, c)| format!("{i:?}={c:?}")).collect::<Vec<_>>()), d(&vec!["BgColor=Red".to_string(), "TextColor=Rgb(10, 27, 44)".to_string()])),
         (&["--tui-key-bindings", "toggle-help=x,quit=ctrl+c"], |a| format!("{:?}", a.tui_key_bindings.iter().map(|(i, b)| format!("{i:?}={b}")).collect::<Vec<_>>()), d(&vec!["ToggleHelp=x".to_string(), "Quit=ctrl+c".to_string()])),
+        // the `=` key is an ordinary key (the default of chart-zoom-in): the item ends at the *first* `=`
+        (&["--tui-key-bindings", "chart-zoom-in=alt+9,toggle-freeze=="], |a| format!("{:?}", a.tui_key_bindings.iter().map(|(i, b)| format!("{i:?}={b}")).collect::<Vec<_>>()), d(&vec!["ChartZoomIn=alt+9".to_string(), "ToggleFreeze==".to_string()])),
+        (&["--tui-key-bindings", "toggle-freeze=ctrl+="], |a| format!("{:?}", a.tui_key_bindings.iter().map(|(i, b)| format!("{i:?}={b}")).collect::<Vec<_>>()), d(&vec!["ToggleFreeze=ctrl+=".to_string()])),
+        (&["--tui-key-bindings", "contract-hosts-min={,expand-hosts-max=}"], |a| format!("{:?}", a.tui_key_bindings.iter().map(|(i, b)| format!("{i:?}={b}")).collect::<Vec<_>>()), d(&vec!["ContractHostsMin={".to_string(), "ExpandHostsMax=}".to_string()])),
     ];
     for (argv, get, want) in cases {
         let mut full: Vec<&str> = vec!["trip"];
